@@ -15,6 +15,7 @@ F_ESC = "C10-regex-escaped-bytes"
 F_NIL = "C10-negated-matchall-showseries"
 F_DUP = "C10-cacheclear-unflushed"
 F_LIT = "C10-regex-literal-overwrites-filter-value"
+F_STALE = "C10-tagfilter-cache-stale-after-background-flush"
 BASE = (1 << 40) | 1000          # logical clock 1, sequence 1000: the harness' initial generator value
 
 
@@ -194,7 +195,7 @@ class CaseView:
                 oa = ops[a]
                 if oa["op"] == "insert" and oa["mst"] == ob["mst"] and (oa.get("tags") or []) == (ob.get("tags") or []):
                     mid = [ops[j]["op"] for j in range(a + 1, b)]
-                    if "clear" in mid and "flush" not in mid and "reopen" not in mid:
+                    if "clear" in mid and "flush" not in mid and "bgflush" not in mid and "reopen" not in mid:
                         ev.append(b)
                         break
         return ev
@@ -210,6 +211,8 @@ def case_coq(c, it_factory=Intern):
             ops.append("CInsert %s %d" % (series_coq(o["mst"], o.get("tags") or [], it), o.get("id", 0)))
         elif k == "flush":
             ops.append("CFlush")
+        elif k == "bgflush":
+            ops.append("CBgFlush")
         elif k == "clear":
             ops.append("CClear")
         elif k == "reopen":
@@ -339,6 +342,56 @@ def collision_events(cv):
     return ev
 
 
+def atom_keys(x):
+    return {(a["k"], a["o"], a.get("v", ""), tuple(a.get("vs") or [])) for a in atoms_of(x, [])}
+
+
+def stale_events(cv):
+    """op indices of select-path queries matching the signature of C10-tagfilter-cache-stale-after-background-flush: a background
+    flush at op a < b made a newly written series visible (an insert that created a series lies between the previous flush /
+    bgflush / reopen / clear and a); a filter of the query (same measurement, key, operator, value) was already evaluated by an
+    earlier query before a and after the last cache clear / reopen; between a and b there is no cache clear, no reopen and no
+    forced flush that had new series to flush (such a flush runs the callback)"""
+    ev = set()
+    ops = cv.c["ops"]
+    for b, ob in enumerate(ops):
+        if ob["op"] != "query":
+            continue
+        keys_b = atom_keys(ob.get("expr"))
+        for a in range(b):
+            if ops[a]["op"] != "bgflush":
+                continue
+            # new series pending at a
+            j = a - 1
+            pending = False
+            while j >= 0 and ops[j]["op"] not in ("flush", "bgflush", "reopen", "clear"):
+                if j in cv.new_series_ops:
+                    pending = True
+                j -= 1
+            if not pending:
+                continue
+            # no invalidation between a and b
+            inval = False
+            fresh = False
+            for j in range(a + 1, b):
+                o = ops[j]["op"]
+                if j in cv.new_series_ops:
+                    fresh = True
+                if o in ("clear", "reopen") or (o == "flush" and fresh):
+                    inval = True
+                if o in ("flush", "bgflush"):
+                    fresh = False
+            if inval:
+                continue
+            # the filter was cached before a
+            j = a - 1
+            while j >= 0 and ops[j]["op"] not in ("clear", "reopen"):
+                if ops[j]["op"] == "query" and ops[j]["mst"] == ob["mst"] and atom_keys(ops[j].get("expr")) & keys_b:
+                    ev.add(b)
+                j -= 1
+    return ev
+
+
 def sources_of_failure(cv, f, classes, cr_current):
     """the known deviation sources of today's code that are present in the failing input; None in the set = an unexplained one"""
     c = cv.c
@@ -373,6 +426,8 @@ def sources_of_failure(cv, f, classes, cr_current):
             src.add(F_NIL)
         if f.get("path") == 2 and opi in cv.collisions:
             src.add(F_LIT)
+        if f.get("path") == 2 and opi in cv.stale:
+            src.add(F_STALE)
         if dups:
             src.add(F_DUP)
         if not src:
@@ -383,6 +438,8 @@ def sources_of_failure(cv, f, classes, cr_current):
 
 
 WHAT = {
+    "C10-tagfilter-cache-stale-after-background-flush": "select path: after the index table's periodic flush the tag-filter result cache keeps answering "
+                                                        "without the newly visible series (the invalidating flush callback is deferred up to 10 s)",
     "C10-regex-anchoring": "regex tag predicate is matched anchored by the index (e.g. /[wd]/, /web|db/ select only whole-value matches)",
     "C10-regex-explicit-anchor": "regex tag predicate with explicit anchors is mistranslated (e.g. /^web$/ matches web-1, /^$/ matches every series)",
     "C10-regex-escaped-bytes": "regex tag predicate is matched against the escaped form of values containing bytes 0x00-0x02",
@@ -449,7 +506,7 @@ def main(ck):
                               "no axioms (Print Assumptions: closed)", "Go regexp as the oracle of regex atoms; Go regexp/syntax parser for the pattern trees",
                               "Go harness cmd/c10 (generator, brute-force oracle), python driver props/C10/run.py (interning, signatures)"]
     ck.coq_audit(["C10"])
-    ok = ck.coq_build(["C10/Proofs.vo", "C10/RegexProofs.vo", "C10/RegexSem.vo", "C10/RegexNew.vo", "C10/RegexAlt.vo", "C10/RegexSearch.vo", "C10/FlushClear.vo", "C10/ListingCond.vo", "C10/Prune.vo", "C10/Corr.vo", "C10/Props.vo", "C10/Refuted.vo"])
+    ok = ck.coq_build(["C10/Proofs.vo", "C10/RegexProofs.vo", "C10/RegexSem.vo", "C10/RegexNew.vo", "C10/RegexAlt.vo", "C10/RegexSearch.vo", "C10/FlushClear.vo", "C10/ListingCond.vo", "C10/Prune.vo", "C10/Cache.vo", "C10/Corr.vo", "C10/Props.vo", "C10/Refuted.vo"])
     if ok:
         ck.coq_props(["C10/Props.v", "C10/Refuted.v"])
     ck.log("coq built and property theorems re-checked")
@@ -468,7 +525,7 @@ def main(ck):
     cases = [json.loads(l) for l in out.splitlines() if l.startswith('{"i"')]
     matrices = [json.loads(l) for l in out.splitlines() if l.startswith('{"kind":"regex"')]
     ncorp = sum(1 for c in cases if c["kind"] == "corpus")
-    nsweep = sum(1 for c in cases if c["kind"] in ("sweep", "pairs", "dense"))
+    nsweep = sum(1 for c in cases if c["kind"] in ("sweep", "pairs", "dense", "stale"))
     if rc != 0 or len(cases) - ncorp - nsweep != n or (n > 0 and nsweep == 0) or (not getattr(ck, "replay", None) and ncorp < len(files)) or len(matrices) != 1:
         ck.broken.append("harness c10 failed rc=%d cases=%d matrices=%d: %s" % (rc, len(cases), len(matrices), out[-800:]))
         return
@@ -551,7 +608,7 @@ def main(ck):
                 # reduces to a pure literal (tf.value is overwritten), else the pattern's source text
                 for p, l in zip(patlist, lits):
                     keytext[p] = "".join(chr(x) for x in l) if l is not None else p
-    stale = {F_ANCH, F_EXPL, F_ESC, F_NIL, F_DUP, F_LIT}
+    stale = {F_ANCH, F_EXPL, F_ESC, F_NIL, F_DUP, F_LIT, F_STALE}
     nviol = 0
     tree_regex_current = False
     if ok:
@@ -688,6 +745,7 @@ def main(ck):
         cv = CaseView(c)
         cv.keytext = keytext
         cv.collisions = collision_events(cv)
+        cv.stale = stale_events(cv)
         for o in c["ops"]:
             hist[o["op"]] = hist.get(o["op"], 0) + 1
             if o["op"] == "query":
@@ -700,7 +758,7 @@ def main(ck):
         # the select path's tag-filter cache is outside the model: a code-5 mismatch at an op matching the collision signature is
         # attributed to it when the oracle failed there on path 2 (then the finding explains it)
         def residual(v):
-            return [(b, code) for b, code in v if not (code == 5 and b in cv.collisions)]
+            return [(b, code) for b, code in v if not (code == 5 and (b in cv.collisions or b in cv.stale))]
         matching = [k for k, v in variants.items() if not residual(v)]
         corr_ok = evaluated and bool(matching)
         v_cur, v_rep = variants.get((True, True, True), []), variants.get((False, False, False), [])
